@@ -206,6 +206,52 @@ def rule_Y5(ctx) -> None:
                     f"oneof members are compiled by {sorted(map(str, sel))} (pydantic flag, class): the pydantic variant must be used exactly in pydantic mode")
 
 
+def _union_origin_tests(tree: ast.AST):
+    """(function name, node) of tests that recognise an Optional / Union annotation by `get_origin(x) is Union` (or
+    `x.__origin__ is Union`) alone: `X | None`, which the typing.310 compiler emits, has origin types.UnionType"""
+    out = []
+    for fn in ast.walk(tree):
+        if not isinstance(fn, (ast.FunctionDef, ast.AsyncFunctionDef)):
+            continue
+        knows_pep604 = any((isinstance(n, ast.Attribute) and "UnionType" in n.attr) or (isinstance(n, ast.Name) and "UnionType" in n.id) for n in ast.walk(fn))
+        for n in ast.walk(fn):
+            if isinstance(n, ast.Compare) and len(n.ops) == 1 and isinstance(n.ops[0], (ast.Is, ast.Eq, ast.IsNot, ast.NotEq)):
+                sides = [n.left, n.comparators[0]]
+                is_union = any((isinstance(x, ast.Name) and x.id == "Union") or (isinstance(x, ast.Attribute) and x.attr == "Union") for x in sides)
+                is_origin = any((isinstance(x, ast.Call) and ast.unparse(x.func).split(".")[-1] == "get_origin") or (isinstance(x, ast.Attribute) and x.attr == "__origin__") for x in sides)
+                if is_union and is_origin and not knows_pep604:
+                    out.append((fn.name, n))
+    return out
+
+
+def rule_Y10(ctx) -> None:
+    """the runtime treats the annotations of all three typing modes alike: nothing decides 'is this Optional[...]' by
+    comparing the origin with typing.Union only"""
+    import pathlib
+    from ..src import M_INIT, Module
+    ctl = pathlib.Path(__file__).resolve().parent.parent / "controls" / "union_origin.py"
+    cm = Module("controls/union_origin.py", ctl)
+    flagged = {f for f, _ in _union_origin_tests(cm.tree)}
+    if flagged != {"enum_class_of"}:
+        raise AnalysisError(f"Y10 positive control: expected exactly `enum_class_of` to be flagged, got {sorted(flagged)}")
+    n = 0
+    for rel in ("src/betterproto/__init__.py", "src/betterproto/enum.py", "src/betterproto/utils.py"):
+        try:
+            mod = ctx.repo.mod(rel)
+        except Exception:
+            continue
+        n += 1
+        hits = _union_origin_tests(mod.tree)
+        if hits:
+            fname, node = hits[0]
+            ctx.refuted("Y10", f"{rel}:optional-recognised-in-every-typing-mode", f"{fname}:{ast.unparse(node)}", mod.loc(node),
+                        f"{fname} recognises an optional annotation by `{ast.unparse(node)}`: the annotations `X | None` emitted under typing.310 have origin types.UnionType on "
+                        "Python < 3.14, so code generated in that mode takes the other branch (the union object is used as the class)", "typing.310 + a proto3 optional enum field; to_dict()")
+        else:
+            ctx.proved("Y10", f"{rel}:optional-recognised-in-every-typing-mode", rel, "no origin test against typing.Union alone")
+    ctx.floor("Y10", "runtime modules scanned", n, 2)
+
+
 def rule_Y6(ctx) -> None:
     """annotation and field arguments consult the same (overridable) `optional` property"""
     models = ctx.repo.mod(M_MODELS)
@@ -323,6 +369,8 @@ def run(ctx) -> None:
     rule_Y8(ctx)
     ctx.rules_run.append("Y9")
     rule_Y9(ctx)
+    ctx.rules_run.append("Y10")
+    rule_Y10(ctx)
     from .c03 import rule_P11, rule_P9
     ctx.rules_run.append("P11")
     rule_P11(ctx)             # user comments cannot break the generated module
